@@ -40,7 +40,7 @@ BUILT = {
  "C16": ("model_checking", "FenInput.tla generates the structured family of FEN-like strings (token sequences that overflow ranks by digit / piece, wrong rank counts, every field replaced by bad values, truncations), the driver adds seeded byte-level mutants; for ANY string the set-up must fail with an error or give a position that round-trips through its own FEN and answers queries, under recover and a watchdog; every node FEN of the TLC trees must round-trip exactly. For the protocol handler a catalogue of malformed lines is inserted into valid sessions (idle and while searching) in child processes: the engine must survive, still answer isready, keep its position, and the session must remain a behaviour of UciSession.tla with the malformed line as a no-op.",
          "The string families are bounded (MaxTok 4 quick / 6 thorough, 5k / 500k mutants); 'all strings' is approached, not exhausted.", "TLA+ input generator + total oracle; trace validation of sessions with malformed lines", "5 C16"),
  "C17": ("model_checking", "SanOf / SanMatches of ChessRules.tla (TLC invariant SanUnique) give the SAN components and the set of moves a SAN text denotes; every legal move of every tree node is rendered in UCI and five SAN decorations and parsed back; hint-stripped and illegal texts must give the unique match or no move.",
-         "The 65,536 x value-range encoding sweep is pending (MoveEnc).", "TLA+ spec + TLC enumeration + replay", "5 C17"),
+         "Encoding: all 65,536 tuples x boundary values, full value range on a sample of tuples.", "TLA+ spec + TLC enumeration + replay", "5 C17"),
  "C18": ("model_checking", "Geometry.tla enumerates every entry of every lookup table (sliding attacks for every occupancy of the line squares, rays, between, masks, distances, shifts) from coordinate definitions; each entry is compared with the engine's table, sliders with extra off-line occupancy.",
          "Finite domain covered completely (quick: magic-table occupancies, thorough: full lines).", "TLA+ definitions + TLC exhaustive enumeration + comparison", "5 C18"),
  "C19": ("model_checking", "BookBuild.tla models the per-game goroutines adding moves under the book mutex and is checked for all interleavings (positions and visit counts equal the sequential fold; links sound, unique, one parent). Games are behaviours of ChessGame.tla from the start position, rendered as Simple/SAN/PGN from the specification's SAN components; the real book is compared by key with the sequential fold, every offered move with the played legal edges; illegal tokens mid-line; GOMAXPROCS variants; race detector; TLC-enumerated interleavings of three real games are forced through the addToBook gate and the resulting links compared with the model.",
